@@ -779,6 +779,51 @@ end GV.C08gen.{f}
     return T, names
 
 
+def big(f):
+    """bw6_633_fp (10 words), bw6_761_fp (12 words): C01_limb has per-round theorems for Mul and none for fromMontGeneric, so the two
+    Montgomery conversions enter as ONE explicit hypothesis `MontSpec` (everything else — wiring, strictness, dispatch — is proved)"""
+    T, names = multi(f)
+    c = consts(f)
+    n, W = c['limbs'], 2 ** c['word']
+    L = f"Gen.Limb.{f}"
+    I = range(n)
+    sp = lambda p: " ".join(f"{p}{i}" for i in I)
+    cm = lambda p: ", ".join(f"{p}{i}" for i in I)
+    bd = lambda p: " ".join(f"(h{p}{i} : {p}{i} < {W})" for i in I)
+    rs = " ".join(str(x) for x in c['rsq'])
+    a = T.index("/-- `toMont` of the Go text")
+    b = T.index("/-! ### wiring")
+    head, tail = T[:a], T[b:]
+    mid = f"""/-- ASSUMED for this field: the two Montgomery conversions of the Go text meet their value-level specification. C01_limb proves every CIOS
+round of `Mul` and the final subtraction for this field (Props/C01_limb_{f}.lean) but not the composed function, and has no theorem for
+`_fromMontGeneric`; K (C01 ops mul / C08 ops tobytes, setcanonical) covers both. Everything below is proved from this single hypothesis. -/
+def MontSpec : Prop :=
+  (∀ {sp('z')} : Nat, {" → ".join(f"z{i} < {W}" for i in I)} → val [{cm('z')}] < P.q →
+    Good ({L}.Mul {sp('z')} {rs}) ∧ tval ({L}.Mul {sp('z')} {rs}) = GV.Field.toMont P (val [{cm('z')}])) ∧
+  (∀ {sp('z')} : Nat, {" → ".join(f"z{i} < {W}" for i in I)} → val [{cm('z')}] < P.q →
+    Good ({L}.fromMontGeneric {sp('z')}) ∧ tval ({L}.fromMontGeneric {sp('z')}) = GV.Field.fromMont P (val [{cm('z')}]))
+
+variable (hM : MontSpec)
+include hM
+
+theorem toMont_spec ({sp('z')} : Nat) {bd('z')} (hZ : val [{cm('z')}] < P.q) :
+    Good ({L}.Mul {sp('z')} {rs}) ∧ tval ({L}.Mul {sp('z')} {rs}) = GV.Field.toMont P (val [{cm('z')}]) :=
+  hM.1 {sp('z')} {" ".join(f"hz{i}" for i in I)} hZ
+
+theorem fromMontGeneric_spec ({sp('z')} : Nat) {bd('z')} (hZ : val [{cm('z')}] < P.q) :
+    Good ({L}.fromMontGeneric {sp('z')}) ∧ tval ({L}.fromMontGeneric {sp('z')}) = GV.Field.fromMont P (val [{cm('z')}]) :=
+  hM.2 {sp('z')} {" ".join(f"hz{i}" for i in I)} hZ
+
+"""
+    later = sorted(set(re.findall(r"^theorem ([A-Za-z_0-9']+)", tail, re.M)) | {"toMont_spec", "fromMontGeneric_spec"}, key=len, reverse=True)
+    for nm in later:
+        tail = re.sub(r"(?<!theorem )(?<![A-Za-z_0-9.])" + re.escape(nm) + r"(?![A-Za-z_0-9'])", nm + " hM", tail)
+    T = head + mid + tail
+    T = T.replace("set_option maxHeartbeats 2000000", "set_option maxHeartbeats 16000000\nset_option linter.unusedSectionVars false")
+    T = T.replace("for ALL byte arrays and ALL canonical elements.", "for ALL byte arrays and ALL canonical elements — UNDER the hypothesis `MontSpec` (toMont / fromMont of this 10/12-word field meet GV.Field).")
+    return T, names
+
+
 def write(f, T):
     p = os.path.join(LEAN, 'Props', f'C08_gen_{f}.lean')
     if not os.path.exists(p) or open(p).read() != T:
@@ -790,6 +835,8 @@ for _f in ALL[:18]:
     KIND[_f] = multi
 for _f in ALL[18:21]:
     KIND[_f] = single
+for _f in ALL[21:]:
+    KIND[_f] = big
 
 SUMMARY = """/-
 C08_gen — tie T for the byte <-> limb conversions of the field packages: every theorem below is about definitions REGENERATED from
@@ -802,6 +849,11 @@ Per field (namespace GV.C08gen.<field>), for ALL byte arrays / slices and ALL ca
 * `Bytes_spec`, `SetBytesCanonical_eq / _spec / _model`, `SetBytes_spec` (fast path on canonical Bytes-long input, the PARAMETER
   `setBigIntBE e` on every other input), `SetBytes_lenient` (with the parameter specified as be(e) mod q: = `Conv.setBytes`);
 * `Bits_spec`, `Uint64_spec`, `FitsOnOneWord_spec`, `IsUint64_spec`, `SetUint64_spec`.
+21 fields unconditionally (18 fields of 4/5/6 words through C01_limb's Mul_spec / fromMontGeneric_spec; goldilocks; koalabear and babybear, whose
+toMont is a shift and a remainder). bw6_633_fp (10 words) and bw6_761_fp (12 words): every theorem takes the hypothesis `MontSpec` (toMont = Mul by
+rSquare and _fromMontGeneric meet GV.Field.toMont / fromMont): C01_limb has per-round theorems only for these two fields, the composed functions are
+not proved there; wiring, strictness, dispatch and round trips are proved from that one hypothesis. goldilocks `SetUint64_spec` needs v < q (Mul_spec
+of C01_limb wants a reduced operand). NOT covered: SetBigInt / SetString / Text / JSON / vectors (math/big, io: hand model + K).
 -/
 """
 
